@@ -305,6 +305,11 @@ fn c06_case(g: &GCtx, e: &RuleEntry, input: &str) -> Result<CaseOut, Failure> {
     for h in &o.hooks {
         *want.entry((h.name.as_str(), h.arg.as_str())).or_insert(0) += 1;
     }
+    // the later checks of a rule whose earlier check failed MAY be called as well (the order and short-circuiting of
+    // several checks is not specified): each such call counts like a predicted one
+    for h in &o.hooks_optional {
+        *want.entry((h.name.as_str(), h.arg.as_str())).or_insert(0) += 1;
+    }
     let mut got: BTreeMap<(&str, &str), i64> = BTreeMap::new();
     for h in &rec.hooks {
         *got.entry((h.name.as_str(), h.arg.as_str())).or_insert(0) += 1;
